@@ -16,6 +16,8 @@ func init() {
 		Run:   runC02,
 		Trusted: []string{"sync/atomic.Value Load/Store are atomic", "gobwas/glob.Compile, net/url.Parse, regexp matching do not panic", "encoding/json stores nil into a pointer for the JSON text null"},
 		Mutants: []mutant{
+			{Name: "last table kept as a view of the reused buffer", File: "main.go", Old: "\t\tlastTable   string\n", New: "\t\tlastTable   []byte\n", Expect: "C02.L4", More: []repl{{"\t\tnextTable   string\n", "\t\tnextTable   []byte\n"}, {"if nextTable = tableBuffer.String(); nextTable == lastTable {", "if nextTable = tableBuffer.Bytes(); bytes.Equal(nextTable, lastTable) {"}, {"aliases, err := route.ParseAliases(nextTable)", "aliases, err := route.ParseAliases(string(nextTable))"}, {"logRoutes(t, lastTable, nextTable, cfg.Log.RoutesFormat)", "logRoutes(t, string(lastTable), string(nextTable), cfg.Log.RoutesFormat)"}}},
+
 			{Name: "plain package variable for the table", File: "route/table.go", Old: "func GetTable() Table {\n\treturn table.Load().(Table)\n}", New: "var plainTable Table\n\nfunc GetTable() Table {\n\tif plainTable != nil {\n\t\treturn plainTable\n\t}\n\treturn table.Load().(Table)\n}", Expect: "C02.A1"},
 			{Name: "delete the nil test in SetTable", File: "route/table.go", Old: "\tif t == nil {\n\t\tlog.Print(\"[WARN] Ignoring nil routing table\")\n\t\treturn\n\t}\n", New: "", Expect: "C02.L3"},
 			{Name: "NewTable returns the partial table with the error", File: "route/table.go", Old: "\t\tdefault:\n\t\t\terr = fmt.Errorf(\"route: invalid command: %s\", d.Cmd)\n\t\t}\n\t\tif err != nil {\n\t\t\treturn nil, err\n\t\t}\n\t}\n\n\t// Sort the route table for each hostname\n\tfor _, h := range t {\n\t\tsort.Sort(h)\n\t}\n\n\treturn t, nil\n}\n\nfunc NewTableCustom", New: "\t\tdefault:\n\t\t\terr = fmt.Errorf(\"route: invalid command: %s\", d.Cmd)\n\t\t}\n\t\tif err != nil {\n\t\t\treturn t, err\n\t\t}\n\t}\n\n\t// Sort the route table for each hostname\n\tfor _, h := range t {\n\t\tsort.Sort(h)\n\t}\n\n\treturn t, nil\n}\n\nfunc NewTableCustom", Expect: "C02.L2"},
@@ -336,6 +338,37 @@ func runC02L(c *Ctx, setter *ssa.Function) {
 		if nErr == 0 {
 			c.check("C02.L4", "main.watchBackend|constructor error examined", call.Pos(), false, "the error of NewTable is not examined in the update loop")
 		}
+		// the "last installed text" itself: an immutable string snapshot carried around the loop and compared with the
+		// candidate (a []byte view of the reused buffer would alias the candidate)
+		hasLast := false
+		for _, in := range lp.Head.Instrs {
+			phi, ok := in.(*ssa.Phi)
+			if !ok {
+				continue
+			}
+			bt, ok := phi.Type().Underlying().(*types.Basic)
+			if !ok || bt.Kind() != types.String {
+				continue
+			}
+			for _, r := range *phi.Referrers() {
+				if cmp, ok := r.(*ssa.BinOp); ok && (cmp.Op == token.EQL || cmp.Op == token.NEQ) {
+					other := cmp.X
+					if other == phi {
+						other = cmp.Y
+					}
+					for _, e := range phi.Edges {
+						if e == other {
+							// the candidate must be a fresh string snapshot of the buffer
+							if call, ok := other.(*ssa.Call); ok && calleeName(&call.Call) == "(*bytes.Buffer).String" {
+								hasLast = true
+							}
+						}
+					}
+				}
+			}
+		}
+		c.check("C02.L4", "main.watchBackend|last installed text is an immutable snapshot compared with the candidate", call.Pos(), hasLast,
+			"the update loop must remember the text of the last installed table as a string (tableBuffer.String()) and compare the candidate with it; a byte-slice view of the reused buffer aliases the candidate, so a later valid configuration of the same length compares equal and is never applied")
 	})
 	c.atLeast("C02.L4", "NewTable calls in watchBackend", nCt, 1)
 }
